@@ -196,10 +196,16 @@ func GenLayout(r *rand.Rand, p Profile) *Layout {
 		it := &gen.TypeDef{Name: "Node", Kind: gen.Interface, Fields: []*gen.Field{{Name: "id", Type: gen.Named("ID", true)}, {Name: "label", Type: gen.Named("String", false)}}}
 		s.Add(it)
 		relOwner := ""
+		var relOwnerType *gen.TypeRef
 		relOwnerHome := -1
 		if p.IfaceRel {
 			relOwner = entNames[r.IntN(len(entNames))]
-			it.Fields = append(it.Fields, &gen.Field{Name: "relOwner", Type: gen.Named(relOwner, false)})
+			relOwnerType = gen.Named(relOwner, false)
+			if r.IntN(2) == 0 {
+				// a list of entities directly on the interface (batch entity fetch below an abstract parent)
+				relOwnerType = gen.ListOf(gen.Named(relOwner, r.IntN(2) == 0), false)
+			}
+			it.Fields = append(it.Fields, &gen.Field{Name: "relOwner", Type: relOwnerType})
 			// preferably one subgraph resolves relOwner for every implementer (then that subgraph's
 			// interface lists the field and the planner can select it on the interface itself)
 			count := map[int]int{}
@@ -219,11 +225,26 @@ func GenLayout(r *rand.Rand, p Profile) *Layout {
 				relOwnerHome = common[r.IntN(len(common))]
 			}
 		}
+		// a second interface over some of the same types (IfaceRel only): `... on Owned` is a type
+		// condition that applies to a concrete type next to `... on Node` and `... on T`
+		owned := map[string]bool{}
+		if relOwner != "" && r.IntN(2) == 0 {
+			ot := &gen.TypeDef{Name: "Owned", Kind: gen.Interface, Fields: []*gen.Field{{Name: "id", Type: gen.Named("ID", true)}, {Name: "relOwner", Type: relOwnerType}}}
+			s.Add(ot)
+			for i, en := range ifaceImpl {
+				if i == 0 || r.IntN(2) == 0 {
+					owned[en] = true
+				}
+			}
+		}
 		for _, en := range ifaceImpl {
 			td := s.Type(en)
 			td.Interfaces = append(td.Interfaces, "Node")
+			if owned[en] {
+				td.Interfaces = append(td.Interfaces, "Owned")
+			}
 			if relOwner != "" {
-				td.Fields = append(td.Fields, &gen.Field{Name: "relOwner", Type: gen.Named(relOwner, false)})
+				td.Fields = append(td.Fields, &gen.Field{Name: "relOwner", Type: relOwnerType})
 				o := relOwnerHome
 				if o < 0 {
 					o = pick(r, g.l.Entities[en])
